@@ -870,8 +870,7 @@ func TestC05(t *testing.T) {
 		}
 	}
 
-	rep.CoqFiles = append(rep.CoqFiles, tf.finish(t, dir))
-	rep.CaseFiles = append(rep.CaseFiles, writeJSONL(t, dir, "C05_trigger_table.jsonl", jl))
+	tf.finishSharded(t, dir, rep, jl, 400)
 	rep.Assumptions = append(rep.Assumptions, "Go scheduler fairness and channel semantics (quiescence is observed with synctest.Wait)", "kind watches deliver the exact event log (C02)")
 	rep.write(t, dir)
 }
